@@ -215,9 +215,12 @@ def _crash_runner(leg, prop, tier, seed, jobs, ROOT, BUILD, replay_case):
     rng = random.Random(seed * 7919 + 13)
     STRACE_SET = "lseek,writev,pwritev,pwrite64,fdatasync,fsync"
 
-    def run_child(cs, kill, mode="plain", strace_k=None, timer_v=None, timer_delay=0.0):
+    def run_child(cs, kill, mode="plain", strace_k=None, timer_v=None, timer_delay=0.0, use_tmpdir=False):
         d = tempfile.mkdtemp(prefix="arroy-verif-crash-", dir=scratch)
         cmd = [binp, "crash-child", "C09", "--dir", d, "--seed", str(cs), "--versions", str(versions), "--kill", kill]
+        if use_tmpdir:
+            os.makedirs(d + ".tmp", exist_ok=True)
+            cmd += ["--tmpdir", d + ".tmp"]
         if mode == "strace":
             sc, k = strace_k
             cmd = ["strace", "-f", "-qq", "-o", "/dev/null", "-e", "trace=" + STRACE_SET,
@@ -269,6 +272,8 @@ def _crash_runner(leg, prop, tier, seed, jobs, ROOT, BUILD, replay_case):
 
     def verify(cs, d, acked, inflight):
         cmd = [binp, "crash-verify", "C09", "--dir", d, "--seed", str(cs), "--acked", str(acked) if acked >= 0 else "none"]
+        if os.path.isdir(d + ".tmp"):
+            cmd += ["--tmpdir", d + ".tmp"]
         if inflight is not None:
             cmd += ["--inflight", str(inflight)]
         try:
@@ -321,6 +326,8 @@ def _crash_runner(leg, prop, tier, seed, jobs, ROOT, BUILD, replay_case):
             for sc in STRACE_SET.split(","):
                 for k in range(1, 15 if thorough else 10):
                     specs.append((cs, f"strace:{sc}:{k}", dict(kill="none", mode="strace", strace_k=(sc, k))))
+    # every second kill point runs with a configured temp directory (Writer::set_tmpdir) that survives the crash
+    specs = [(cs, label + ("+tmpdir" if i % 2 else ""), dict(kw, use_tmpdir=bool(i % 2))) for i, (cs, label, kw) in enumerate(specs)]
     if replay_case is not None:
         specs = [s for s in specs if f"{s[0]}/{s[1]}" == replay_case]
 
@@ -339,6 +346,7 @@ def _crash_runner(leg, prop, tier, seed, jobs, ROOT, BUILD, replay_case):
             return spec, verdict, msg, (acked, inflight, done, rc)
         finally:
             shutil.rmtree(d, ignore_errors=True)
+            shutil.rmtree(d + ".tmp", ignore_errors=True)
 
     t0 = time.time()
     with ThreadPoolExecutor(max_workers=max(2, jobs)) as ex:
@@ -348,9 +356,11 @@ def _crash_runner(leg, prop, tier, seed, jobs, ROOT, BUILD, replay_case):
     for (cs, label, kw), verdict, msg, info in results:
         res.cases_begun += 1
         res.cases_ended += 1
-        mode = label.split(":")[0]
+        mode = label.split(":")[0].split("+")[0]
         c["cases"] = c.get("cases", 0) + 1
         c[f"kills_{mode}"] = c.get(f"kills_{mode}", 0) + 1
+        if kw.get("use_tmpdir"):
+            c["kills_with_configured_tmpdir"] = c.get("kills_with_configured_tmpdir", 0) + 1
         if verdict == "strace-failed":
             strace_failed += 1
             continue
